@@ -308,20 +308,15 @@ class AbstractDateTime(AnyAtomicType):
                 return value
 
             case YearMonthDuration():
-                month = op(self._dt.month - 1, other.months) % 12 + 1
-                year = self._year + op(self._dt.month - 1, other.months) // 12
+                # count months on the astronomical year (BCE years are stored
+                # without a year 0: -1 is the year before 1)
+                year = self._year if self._year > 0 else self._year + 1
+                months = op(year * 12 + self._dt.month - 1, other.months)
+                year, month = months // 12, months % 12 + 1
                 day = adjust_day(year, month, self._dt.day)
 
-                if year > 0:
-                    dt = self._dt.replace(year=year, month=month, day=day)
-                elif isleap(year):
-                    dt = self._dt.replace(year=4, month=month, day=day)
-                else:
-                    dt = self._dt.replace(year=6, month=month, day=day)
-
-                kwargs = {k: getattr(dt, k) for k in self.pattern.groupindex.keys()}
-                if year <= 0:
-                    kwargs['year'] = year
+                kwargs = {k: getattr(self._dt, k) for k in self.pattern.groupindex.keys()}
+                kwargs.update(year=year if year > 0 else year - 1, month=month, day=day)
                 return type(self)(**kwargs)
 
             case _:
